@@ -1642,11 +1642,14 @@ Qed.
 Lemma rev_nil_iff {A} (l : list A) : rev l = [] -> l = [].
 Proof. intros H. apply (f_equal (@rev A)) in H. now rewrite rev_involutive in H. Qed.
 
+Lemma p_rev_eq l : p_rev l = rev l.
+Proof. unfold p_rev. symmetry. apply rev_alt. Qed.
+
 Lemma split_lines_aux_nolf s : forall cur, no_byte cLF s = true ->
   split_lines_aux s cur = match rev cur ++ s with [] => [] | _ => [p_drop_cr (rev cur ++ s)] end.
 Proof.
   induction s as [|c r IH]; intros cur H.
-  - cbn [split_lines_aux]. rewrite app_nil_r. destruct cur as [|x cur]; [reflexivity|].
+  - cbn [split_lines_aux]. rewrite p_rev_eq, app_nil_r. destruct cur as [|x cur]; [reflexivity|].
     destruct (rev (x :: cur)) eqn:E; [apply rev_nil_iff in E; discriminate|reflexivity].
   - rewrite no_byte_cons in H. apply andb_prop in H as [Hc Hr]. apply negb_true_iff in Hc.
     cbn [split_lines_aux]. rewrite Hc. rewrite (IH (c :: cur) Hr). cbn [rev]. now rewrite <- !app_assoc.
@@ -1656,33 +1659,38 @@ Lemma split_lines_aux_lf s rest : forall cur, no_byte cLF s = true ->
   split_lines_aux (s ++ cLF :: rest) cur = p_drop_cr (rev cur ++ s) :: split_lines_aux rest [].
 Proof.
   induction s as [|c r IH]; intros cur H.
-  - cbn [app split_lines_aux]. change (cLF =? cLF) with true. cbn match. now rewrite app_nil_r.
+  - cbn [app split_lines_aux]. change (cLF =? cLF) with true. cbn match. now rewrite p_rev_eq, app_nil_r.
   - rewrite no_byte_cons in H. apply andb_prop in H as [Hc Hr]. apply negb_true_iff in Hc.
     cbn [app split_lines_aux]. rewrite Hc. rewrite (IH (c :: cur) Hr). cbn [rev]. now rewrite <- !app_assoc.
 Qed.
 
 Lemma p_drop_cr_id l : (p_last l =? cCR) = false -> p_drop_cr l = l.
 Proof.
-  intros H. unfold p_drop_cr. destruct (rev l) as [|c r] eqn:E; [reflexivity|].
+  intros H. unfold p_drop_cr. rewrite p_rev_eq. destruct (rev l) as [|c r] eqn:E; [reflexivity|].
   assert (c = p_last l).
   { apply (f_equal (@rev N)) in E. rewrite rev_involutive in E. rewrite E. cbn [rev]. now rewrite p_last_app. }
   subst c. now rewrite H.
 Qed.
 
+Definition ps_ev (f : nat) (files : list (bytes * bytes)) : gstate -> bytes -> option gstate :=
+  fun g l =>
+    match evaluate_line l with
+    | LError => None
+    | LRule d => Some (mk_g (g_inc g) (d :: g_rules g))
+    | LInclude path =>
+      if max_include <=? g_inc g then None
+      else match p_assoc (p_trim_space path) files with
+           | None => None
+           | Some content => parse_string f files (mk_g (g_inc g + 1) (g_rules g)) content
+           end
+    end.
+
 Lemma parse_string_S f files g text :
   parse_string (S f) files g text =
-  ps_loop (fun g l =>
-             match evaluate_line l with
-             | LError => None
-             | LRule d => Some (mk_g (g_inc g) (d :: g_rules g))
-             | LInclude path =>
-               if max_include <=? g_inc g then None
-               else match p_assoc (p_trim_space path) files with
-                    | None => None
-                    | Some content => parse_string f files (mk_g (g_inc g + 1) (g_rules g)) content
-                    end
-             end)
-          (scanner_lines (split_lines text)) [] false g.
+  match ps_loop (ps_ev f files) (scanner_lines (split_lines text)) [] false g with
+  | None => None
+  | Some g' => if scanner_truncated (split_lines text) then None else Some g'
+  end.
 Proof. reflexivity. Qed.
 
 Theorem parse_config_line files l d :
@@ -1695,28 +1703,19 @@ Proof.
   assert (Hcr : (p_last l =? cCR) = false).
   { unfold nsp, p_is_ascii_space in Hl. apply andb_prop in Hl as [_ Hl]. apply negb_true_iff in Hl.
     repeat (apply orb_false_elim in Hl as [Hl ?]). assumption. }
-  assert (Hloop : forall g, ps_loop (fun g l0 =>
-               match evaluate_line l0 with
-               | LError => None
-               | LRule d => Some (mk_g (g_inc g) (d :: g_rules g))
-               | LInclude path =>
-                 if max_include <=? g_inc g then None
-                 else match p_assoc (p_trim_space path) files with
-                      | None => None
-                      | Some content => parse_string 101 files (mk_g (g_inc g + 1) (g_rules g)) content
-                      end
-               end) [l] [] false g = Some (mk_g (g_inc g) (d :: g_rules g))).
+  assert (Hloop : forall g, ps_loop (ps_ev 101 files) [l] [] false g = Some (mk_g (g_inc g) (d :: g_rules g))).
   { intros g. cbn [ps_loop]. rewrite (p_trim_space_id l 0 Hne Hh Hl).
     destruct l as [|c0 t]; [congruence|]. cbn [hd] in Hhash. rewrite Hhash, Hbt, Hbs. cbn [negb andb app].
-    cbn match. rewrite Hev. reflexivity. }
+    cbn match. unfold ps_ev at 1. rewrite Hev. reflexivity. }
+  assert (Hfit : line_fits l = true) by exact Hlen.
   split.
   - unfold parse_config. change include_fuel with (S 101). rewrite parse_string_S.
     unfold split_lines. rewrite (split_lines_aux_nolf l [] Hlf). cbn [rev app].
-    rewrite (match_nonempty l _ _ Hne). rewrite (p_drop_cr_id l Hcr). cbn [scanner_lines]. rewrite Hlen.
-    rewrite Hloop. reflexivity.
+    rewrite (match_nonempty l _ _ Hne). rewrite (p_drop_cr_id l Hcr). cbn [scanner_lines]. rewrite Hfit.
+    rewrite Hloop. unfold scanner_truncated. cbn [forallb]. rewrite Hfit. reflexivity.
   - unfold parse_config. change include_fuel with (S 101). rewrite parse_string_S.
     unfold split_lines. rewrite (split_lines_aux_lf l [] [] Hlf). cbn [rev app split_lines_aux].
-    rewrite (p_drop_cr_id l Hcr). cbn [scanner_lines]. rewrite Hlen. rewrite Hloop. reflexivity.
+    rewrite (p_drop_cr_id l Hcr). cbn [scanner_lines]. rewrite Hfit. rewrite Hloop. unfold scanner_truncated. cbn [forallb]. rewrite Hfit. reflexivity.
 Qed.
 
 Lemma escape_dq_no_lf s : no_byte cLF (escape_dq s) = no_byte cLF s.
@@ -1851,13 +1850,12 @@ Lemma unterminated_regex_key_witness :
   parse_variables (str "ARGS:/abc") = Some [mk_tcall false false (str "ARGS") (str "/ab/")].
 Proof. vm_compute; reflexivity. Qed.
 
-(* new: a configuration whose last line ends in a continuation backslash loses that
-   directive without an error *)
+(* repaired (F55): a configuration whose last line ends in a continuation backslash is rejected
+   (before the repair the pending directive was dropped without an error) *)
 Lemma dangling_continuation_witness :
-  parse_config [] (str "SecRule ARGS ""@rx a"" ""id:1,deny"" \") = Some [] /\
+  parse_config [] (str "SecRule ARGS ""@rx a"" ""id:1,deny"" \") = None /\
   exists d, parse_config [] (str "SecRule ARGS ""@rx a"" ""id:1,deny""") = Some [d].
 Proof. split; [vm_compute; reflexivity|]. eexists. vm_compute. reflexivity. Qed.
-
 Local Close Scope string_scope.
 
 (* rejected: an action list with an unknown action name anywhere *)
@@ -1882,15 +1880,43 @@ Proof.
   now rewrite (cut_body_no_quote body false H).
 Qed.
 
-(* new: a physical line of 64 KiB or more ends the scan silently (bufio.Scanner's error is never
-   looked at): whatever follows it is not parsed, and no error is reported *)
+(* the scanner delivers only the lines before a physical line of 64 KiB or more *)
 Theorem scanner_lines_truncates pre l post :
-  forallb (fun x => N.of_nat (length x) <? max_line) pre = true ->
-  (N.of_nat (length l) <? max_line) = false ->
-  scanner_lines (pre ++ l :: post) = pre.
+  forallb line_fits pre = true -> line_fits l = false ->
+  scanner_lines (pre ++ l :: post) = pre /\ scanner_truncated (pre ++ l :: post) = true.
 Proof.
-  induction pre as [|x pre IH]; intros Hp Hl.
-  - cbn [app scanner_lines]. now rewrite Hl.
-  - cbn [forallb] in Hp. apply andb_prop in Hp as [Hx Hp]. cbn [app scanner_lines]. rewrite Hx.
-    now rewrite (IH Hp Hl).
+  intros Hp Hl. split.
+  - induction pre as [|x pre IH].
+    + cbn [app scanner_lines]. now rewrite Hl.
+    + cbn [forallb] in Hp. apply andb_prop in Hp as [Hx Hp]. cbn [app scanner_lines]. rewrite Hx.
+      now rewrite (IH Hp).
+  - unfold scanner_truncated. rewrite forallb_app. cbn [forallb]. rewrite Hl, andb_false_r. reflexivity.
+Qed.
+
+(* repaired (F54): a text with such a line is rejected as a whole (scanner.Err() is returned);
+   before the repair everything after the long line was ignored without an error *)
+Theorem parse_string_long_line_rejected f files g text :
+  scanner_truncated (split_lines text) = true -> parse_string (S f) files g text = None.
+Proof.
+  intros H. rewrite parse_string_S, H.
+  destruct (ps_loop (ps_ev f files) (scanner_lines (split_lines text)) [] false g); reflexivity.
+Qed.
+
+Theorem parse_config_long_line_rejected files text :
+  scanner_truncated (split_lines text) = true -> parse_config files text = None.
+Proof.
+  intros H. unfold parse_config. change include_fuel with (S 101).
+  now rewrite (parse_string_long_line_rejected 101 files (mk_g 0 []) text H).
+Qed.
+
+(* repaired (F55): a pending continuation at the end of the text is an error, in any state *)
+Theorem ps_dangling_continuation_rejected ev raw a buf g :
+  p_trim_space raw = a ++ [cBS] -> a <> [] -> (hd 0 a =? cHASH) = false ->
+  ps_loop ev [raw] buf false g = None.
+Proof.
+  intros H Ha Hh. destruct a as [|a0 a']; [congruence|]. cbn [hd] in Hh.
+  cbn [ps_loop]. rewrite H. cbn [app]. rewrite Hh.
+  change (a0 :: a' ++ [cBS]) with ((a0 :: a') ++ [cBS]). rewrite p_last_app.
+  change (cBS =? cBT) with false. change (cBS =? cBS) with true. cbn [andb negb]. cbn match.
+  rewrite removelast_last. destruct buf; reflexivity.
 Qed.
